@@ -8,7 +8,7 @@ now() calls.  Unfinished calls are completed afterwards thread after thread.  Re
 in completion order (time in DTN ms).  Every case runs in a fresh child process of the harness."""
 import itertools
 
-THEOREMS = ["C09_unique", "C09_unique_from", "C09_complete", "C09_sequential", "C09_sequential_first",
+THEOREMS = ["C09_handed_out_unique", "C09_unique", "C09_unique_from", "C09_complete", "C09_sequential", "C09_sequential_first",
             "C09_sequential_calls", "C09_pinned_refuted"]
 OFFSET_MS = 946684800000
 U64 = 2 ** 64
